@@ -66,6 +66,13 @@ func init() {
 		"strings.EqualFold":       nil,
 		"bytes.Equal":             mBytesEqual,
 		"bytes.IndexByte":         mBytesIndexByte,
+		"math.Sqrt":               func(it *Interp, fn *ssa.Function, a []Value) Value { return it.ctx.fp1(OFPSqrt, it.term(a[0], "x")) },
+		"math.Floor":              func(it *Interp, fn *ssa.Function, a []Value) Value { return it.ctx.fp1(OFPFloor, it.term(a[0], "x")) },
+		"math.Abs": func(it *Interp, fn *ssa.Function, a []Value) Value {
+			c := it.ctx
+			x := it.term(a[0], "x")
+			return c.Ite(c.fpcmp(OFPLT, x, c.FPConst(0)), c.fp1(OFPNeg, x), x)
+		},
 		"runtime.GOMAXPROCS":      func(it *Interp, fn *ssa.Function, a []Value) Value { return it.ctx.BV(16, 64) },
 		"runtime.NumCPU":          func(it *Interp, fn *ssa.Function, a []Value) Value { return it.ctx.BV(16, 64) },
 		"runtime.Gosched":         func(it *Interp, fn *ssa.Function, a []Value) Value { return nil },
@@ -131,6 +138,12 @@ func init() {
 			return c.Ite(it.strEq(x, y), c.BV(0, 64), c.Ite(it.strLess(x, y, false), c.BV(^uint64(0), 64), c.BV(1, 64)))
 		},
 		"internal/stringslite.Index": nil,
+		"math.archFloor": func(it *Interp, fn *ssa.Function, a []Value) Value { return it.ctx.fp1(OFPFloor, it.term(a[0], "x")) },
+		"math.archSqrt":  func(it *Interp, fn *ssa.Function, a []Value) Value { return it.ctx.fp1(OFPSqrt, it.term(a[0], "x")) },
+		"math.archCeil": func(it *Interp, fn *ssa.Function, a []Value) Value {
+			c := it.ctx
+			return c.fp1(OFPNeg, c.fp1(OFPFloor, c.fp1(OFPNeg, it.term(a[0], "x"))))
+		},
 	}
 	delete(leafModels, "internal/stringslite.Index")
 	harnessAPI = map[string]interceptFn{
